@@ -66,6 +66,9 @@ class MidiFile:
             # Keep track of current point in time
             current_point_in_time = 0
 
+            # Keep track of sounding notes, in order to drop notes that collapse to zero length at this resolution
+            open_notes = dict()
+
             # Get current sequence
             current_sequence = None
             if any(i in indices for indices in track_indices):
@@ -85,14 +88,20 @@ class MidiFile:
 
                 # Note On
                 if msg.message_type == MessageType.NOTE_ON and any(i in indices for indices in track_indices):
-                    current_sequence.add_absolute_message(
-                        Message(message_type=MessageType.NOTE_ON, channel=msg.channel, note=msg.note,
-                                velocity=msg.velocity, time=rounded_point_in_time))
+                    note_on = Message(message_type=MessageType.NOTE_ON, channel=msg.channel, note=msg.note,
+                                      velocity=msg.velocity, time=rounded_point_in_time)
+                    current_sequence.add_absolute_message(note_on)
+                    open_notes[(msg.channel, msg.note)] = note_on
                 # Note Off
                 elif msg.message_type == MessageType.NOTE_OFF and any(i in indices for indices in track_indices):
-                    current_sequence.add_absolute_message(
-                        Message(message_type=MessageType.NOTE_OFF, channel=msg.channel, note=msg.note,
-                                time=rounded_point_in_time))
+                    note_on = open_notes.pop((msg.channel, msg.note), None)
+                    if note_on is not None and note_on.time == rounded_point_in_time:
+                        # Note starts and ends on the same tick, remove it instead of closing it
+                        current_sequence.abs._messages.remove(note_on)
+                    else:
+                        current_sequence.add_absolute_message(
+                            Message(message_type=MessageType.NOTE_OFF, channel=msg.channel, note=msg.note,
+                                    time=rounded_point_in_time))
                 # Time Signature
                 elif msg.message_type == MessageType.TIME_SIGNATURE:
                     if i not in meta_track_indices:
